@@ -496,12 +496,37 @@ Proof.
 Qed.
 
 (* ---------- FlatColumn(default=...) ---------- *)
-Lemma column_truthy t x : truthy x = true ->
-  column' t x = match parse' t nokw x with ROk r => ROk r | RErr _ => RErr XValue end.
-Proof. intros H. unfold column_default. now rewrite H. Qed.
+Definition wrap_value_error (r : res pyval) : res pyval := match r with ROk v => ROk v | RErr _ => RErr XValue end.
 
-Lemma column_falsy t x : truthy x = false -> column' t x = ROk x.
-Proof. intros H. unfold column_default. now rewrite H. Qed.
+(* a typed column: the cast of the default with the column's own keyword arguments, for every
+   default (None and falsy ones included); an untyped column keeps it *)
+Lemma column_default_spec t k x :
+  (untyped t = false -> column' t k x = wrap_value_error (parse' t (column_kwargs t k) x)) /\
+  (untyped t = true -> column' t k x = ROk x) /\
+  (t <> T_DECIMAL -> column_kwargs t k = k) /\
+  column_kwargs T_DECIMAL k =
+    (let p := match kw_precision k with Some p => p | None => context_prec end in
+     let s := match kw_scale k with Some s => s | None => Z.quot (column_scale_num * p) column_scale_den end in
+     mkkw (kw_length k) (Some p) (Some s) (kw_element k)).
+Proof.
+  split; [|split; [|split]].
+  - intros Ht. unfold column_default. rewrite Ht. destruct x; reflexivity.
+  - intros Ht. unfold column_default. rewrite Ht. destruct x; reflexivity.
+  - intros Ht. destruct t; try reflexivity. congruence.
+  - reflexivity.
+Qed.
+
+(* so a typed column's default has the column type's class (or the constructor raised) *)
+Lemma column_class t k x r :
+  In t value_types -> x <> PNone -> column' t k x = ROk r -> Some (class_of r) = python_class t.
+Proof.
+  intros Ht Hx H.
+  assert (untyped t = false) as Hu.
+  { unfold value_types in Ht. cbn [In] in Ht. destruct Ht as [<-|[<-|[<-|[<-|[<-|[<-|[<-|[<-|[<-|[]]]]]]]]]]; reflexivity. }
+  rewrite (proj1 (column_default_spec t k x) Hu) in H. unfold wrap_value_error in H.
+  destruct (parse' t (column_kwargs t k) x) as [v|e] eqn:E; [|discriminate]. injection H as <-.
+  eapply class_preserved; eauto.
+Qed.
 
 Lemma boolean_total k s :
   parse' T_BOOLEAN k (PStr s) = ROk (PBool (in_boolean_strings false (py_upper s))) /\
@@ -518,11 +543,6 @@ Proof.
   split; [exact (proj1 (blob_unbounded b t))|exact (proj2 (blob_unbounded b t))].
 Qed.
 
-Lemma column_default_spec t x :
-  (truthy x = true -> column' t x = match parse' t nokw x with ROk r => ROk r | RErr _ => RErr XValue end) /\
-  (truthy x = false -> column' t x = ROk x).
-Proof. split; [apply column_truthy|apply column_falsy]. Qed.
-
 End Oracles.
 
 (* ---------- witnesses ---------- *)
@@ -532,18 +552,16 @@ Lemma decimal_exponent_witness ft fb rp jl jd sc :
   parse ft fb rp jl jd sc T_DECIMAL (dec_kw 5 3) (PStr (dec_str (DFin false 12345 0))) = ROk (PDecimal (DFin false 12345 0)).
 Proof. vm_compute. reflexivity. Qed.
 
-(* F-C07-4: a falsy default is not cast *)
-Lemma column_falsy_witness ft fb rp jl jd sc :
-  column_default ft fb rp jl jd sc T_VARCHAR (PBytes []) = ROk (PBytes []) /\
-  parse ft fb rp jl jd sc T_VARCHAR nokw (PBytes []) = ROk (PStr []).
-Proof. split; vm_compute; reflexivity. Qed.
-
-(* F-C07-3: the default of a VARCHAR[3] column is cast without the length *)
-Lemma column_length_witness ft fb rp jl jd sc :
-  let t := [97; 98; 99; 100; 101; 102]%N in
-  column_default ft fb rp jl jd sc T_VARCHAR (PStr t) = ROk (PStr t) /\
-  parse ft fb rp jl jd sc T_VARCHAR (mkkw (Some 3) None None None) (PStr t) = ROk (PStr [97; 98; 99]%N).
-Proof. split; vm_compute; reflexivity. Qed.
+(* F-C07-3 / F-C07-4 (fixed): the default of a VARCHAR[3] column is cut to 3 characters; the falsy
+   default b"" of a VARCHAR column is cast to ""; a DECIMAL column without precision / scale *)
+Lemma column_witnesses ft fb rp jl jd sc :
+  column_default ft fb rp jl jd sc T_VARCHAR (mkkw (Some 3) None None None) (PStr [97; 98; 99; 100; 101; 102]%N) = ROk (PStr [97; 98; 99]%N) /\
+  column_default ft fb rp jl jd sc T_VARCHAR nokw (PBytes []) = ROk (PStr []) /\
+  column_default ft fb rp jl jd sc T_DOUBLE nokw (PInt 0) = ROk (PFloat 0) /\
+  column_kwargs T_DECIMAL nokw = mkkw None (Some context_prec) (Some 21) None /\
+  column_default ft fb rp jl jd sc T__MISSING_TYPE (mkkw (Some 3) None None None) (PStr [97; 98; 99; 100]%N) = ROk (PStr [97; 98; 99; 100]%N) /\
+  column_default ft fb rp jl jd sc T_INTEGER nokw (PStr [120]%N) = RErr XValue.
+Proof. repeat split; vm_compute; reflexivity. Qed.
 
 (* the hypotheses of double_roundtrip are satisfiable: a toy float()/repr() pair (the bits
    written in decimal; float() reads the digits and ignores everything else) *)
@@ -588,21 +606,4 @@ Proof.
   split; [vm_compute; split; discriminate|]. split; [vm_compute; split; discriminate|].
   split; [vm_compute; split; discriminate|]. split; [vm_compute; discriminate|].
   exists 12345, 0. split; [exact (decimal_exponent_witness ft fb rp jl jd sc)|discriminate].
-Qed.
-
-Lemma column_default_falsy_refuted ft fb rp jl jd sc :
-  exists x, column_default ft fb rp jl jd sc T_VARCHAR x = ROk x /\ Some (class_of x) <> python_class T_VARCHAR /\
-            parse ft fb rp jl jd sc T_VARCHAR nokw x = ROk (PStr []).
-Proof.
-  exists (PBytes []).
-  split; [exact (proj1 (column_falsy_witness ft fb rp jl jd sc))|].
-  split; [discriminate|exact (proj2 (column_falsy_witness ft fb rp jl jd sc))].
-Qed.
-
-Lemma column_default_length_refuted ft fb rp jl jd sc :
-  exists t, column_default ft fb rp jl jd sc T_VARCHAR (PStr t) = ROk (PStr t) /\
-            parse ft fb rp jl jd sc T_VARCHAR (mkkw (Some 3) None None None) (PStr t) <> ROk (PStr t).
-Proof.
-  exists [97; 98; 99; 100; 101; 102]%N.
-  destruct (column_length_witness ft fb rp jl jd sc) as [H1 H2]. split; [exact H1|]. rewrite H2. discriminate.
 Qed.
